@@ -1494,17 +1494,36 @@ fn eval_call(
                     &stmts,
                 )
                     .context(EvalFuncCallFailed{
-                        func_name,
+                        func_name: func_name.clone(),
                         call_loc: (*line, *col),
                     })?;
+
+                // A `break` or `continue` that leaves the function body is
+                // reported at its own location, from within this call.
+                let new_escape_err = |source, loc: Location| {
+                    let (esc_line, esc_col) = loc;
+
+                    Err(Error::EvalFuncCallFailed{
+                        source: Box::new(Error::AtLoc{
+                            source: Box::new(source),
+                            line: esc_line,
+                            col: esc_col,
+                        }),
+                        func_name: func_name.clone(),
+                        call_loc: (*line, *col),
+                    })
+                };
 
                 match v {
                     Escape::None =>
                         value::new_null(),
-                    Escape::Break{..} =>
-                        return Err(Error::BreakOutsideLoop),
-                    Escape::Continue{..} =>
-                        return Err(Error::ContinueOutsideLoop),
+                    Escape::Break{loc} =>
+                        return new_escape_err(Error::BreakOutsideLoop, loc),
+                    Escape::Continue{loc} =>
+                        return new_escape_err(
+                            Error::ContinueOutsideLoop,
+                            loc,
+                        ),
                     Escape::Return{value, ..} =>
                         value,
                 }
